@@ -5,7 +5,7 @@ META = {
     "technique": "TLC model checking of NsqdAbs/NsqdAbsMC and NsqdCore; every TLC-enumerated interleaving of operation pairs "
                  "forced on the real daemon through yield points (gated replay) and compared with the model's prediction; traces of a real in-process nsqd (verif hooks + client-side "
                  "observations) from the seeded 'core' and 'contend' drivers validated against NsqdAbs by TLC; black-box "
-                 "ledger on client-visible frames and /stats",
+                 "ledger on client-visible frames and /stats; NsqdTopic forced interleavings: topic message_count vs acknowledged publishes",
     "design_ref": "5/C13",
 }
 
@@ -16,6 +16,9 @@ def run(ctx):
     import pairs
     # binding A': every interleaving (TLC, NsqdCore) of two operations' critical sections forced on the real daemon
     pairs.run_pairs(ctx, "C13", pairs=[p for p in pairs.all_pairs() if "EMPTY" in p or "SCAN" in p] + pairs.TRIPLES, sample=None if not ctx.quick else 230)
+    import tpairs
+    # topic level (NsqdTopic): message_count equals the acknowledged publishes under every forced interleaving (sample)
+    tpairs.run_tpairs(ctx, "C13", only=lambda t: "PUT" in t and "TDELETE" not in t and "TEXIT" not in t, sample=150 if ctx.quick else None)
     n = 16 if ctx.quick else 120
     corelib.run_modes(ctx, "C13", [("core", n), ("contend", n // 2)])
     corelib.repo_tests(ctx, "C13")
